@@ -729,7 +729,10 @@ pub fn check_main(prop: &dyn Prop, tier: Tier, verif_root: &Path) -> i32 {
     let nshards: u64 = std::env::var("MC_WORKERS").ok().and_then(|x| x.parse().ok()).unwrap_or(16);
     let findings = load_findings(verif_root);
     let mut results = Vec::new();
-    for cfg in prop.configs(tier) {
+    // MC_CFGS (comma separated) overrides the build configurations (exploratory use only)
+    let override_cfgs: Option<Vec<String>> = std::env::var("MC_CFGS").ok().map(|s| s.split(',').map(|x| x.to_string()).collect());
+    let cfgs: Vec<String> = override_cfgs.unwrap_or_else(|| prop.configs(tier).into_iter().map(|s| s.to_string()).collect());
+    for cfg in cfgs.iter().map(|s| s.as_str()) {
         match run_cfg(prop, tier, cfg, &paths, nshards) {
             Ok(r) => results.push(r),
             Err(e) => {
